@@ -105,8 +105,16 @@ class G15:
             a = self.fresh("ar")
             x = self.fresh("x")
             return "var %s = (%s) => (%s + %s) %% 9973; log(%d, %s(%s));" % (a, x, x, self.expr(vis), t, a, self.expr(vis))
-        if r < 0.91:
+        if r < 0.89:
             return "log(%d, arguments.length + (arguments.length ? arguments[0] : 0));" % t
+        if r < 0.93:
+            # built-in objects are per context: what one program stores on them, or finds there, must
+            # not depend on what other contexts of the process did (small shared pool of slot names)
+            slot = rng.choice(("Math.zq%d", "JSON.zq%d", "String.zq%d", "Object.prototype.zq%d", "Error.prototype.zq%d",
+                               "Array.zq%d", "Number.zq%d")) % rng.randrange(3)
+            if rng.random() < 0.5:
+                return "log(%d, typeof %s);" % (t, slot)
+            return "log(%d, typeof %s); %s = %s; log(%d, %s);" % (t, slot, slot, self.expr(vis), t, slot)
         e = self.fresh("e")
         return "try { throw %s; } catch (%s) { log(%d, (%s + %s) %% 9973); }" % (self.expr(vis), e, t, e, self.expr(vis))
 
